@@ -13,6 +13,25 @@ def pyIndex (l : List Int) (i : Int) : R Int :=
   else if -n ≤ i ∧ i < 0 then .ok (l.getD (i + n).toNat 0)
   else .error .indexError
 
+/-- Python `d[i]` on a constant dict whose keys are exactly 0 … n-1 (given as the list of its values): `KeyError`
+    for every other key (no negative-index wrap-around, unlike a list). -/
+def pyDictIndex (l : List Int) (i : Int) : R Int :=
+  if 0 ≤ i ∧ i < (l.length : Int) then .ok (l.getD i.toNat 0) else .error .keyError
+
+/-- a Python dict with int keys: the function from keys to optional values (`d[k]` raises KeyError for a missing key,
+    `d[k] = v` replaces or adds one entry) -/
+def PyDict (α : Type) : Type := Int → Option α
+def PyDict.get {α} (d : PyDict α) (k : Int) : R α :=
+  match d k with
+  | some v => .ok v
+  | none => .error .keyError
+def PyDict.set {α} (d : PyDict α) (k : Int) (v : α) : PyDict α := fun j => if j = k then some v else d j
+
+/-- `_YearStartCacheEntry`: its one attribute, the packed `days << 7 | validator` -/
+structure CacheEntry where
+  value : Int
+  deriving DecidableEq, Repr, Inhabited
+
 /-- `_YearMonthDay._ctor(year=, month=, day=)` as a plain triple (the bit packing of `_YearMonthDay` is modelled
     and proved lossless separately: `Calendar.packYmdc`, C12 `unpack_pack`). -/
 structure YMD where
